@@ -9,7 +9,7 @@ from ..sched import replay_case, run_case
 from ..spaces import shard_iter
 
 ID = "C14"
-BUDGET = {"quick": 100, "thorough": 900}
+BUDGET = {"quick": 240, "thorough": 900}
 MONITORS = [mon_c14]
 
 
